@@ -8,7 +8,7 @@ META = {
     'rule': 'all ordered pairs of DFAs with <=2 states over {a} and sampled pairs of 2-state DFAs over {a,b}; seeded random pairs '
             '(1-5 states): renamed copies (with extra unreachable states), equivalent-but-not-isomorphic pairs (a DFA vs its minimised / '
             'unminimised form), inequivalent pairs; both routines, both argument orders, 5 s alarm per call; compared with the Lean '
-            'model and a reference bijection search; non-trivial = both DFAs have >=2 reachable states; distinct by content; also pairs where a state of D1 is reached by two symbols and D2 splits them, the empty string as a state name',
+            'model and a reference bijection search; non-trivial = both DFAs have >=2 reachable states; distinct by content; also pairs where a state of D1 is reached by two symbols and D2 splits them, the empty string as a state name; D2 with two symbols exchanged; transition tables filled in different orders; one 12-13-state DFA with all pairs of rows for one state (all ~25000 pairs, reference only)',
     'assumptions': ['DFA.valid (constructor), equal alphabets'],
     'trusted_base': ['Spec: Gamba/Spec/Iso.lean'],
 }
@@ -87,11 +87,54 @@ def cases(ctx):
                 d2 = rename(d2, lambda x: '' if x == q else x)
             else:
                 d1 = rename(d1, lambda x: '' if x == q else x)
+        if len(Sig) >= 2 and rng.random() < 0.1 and r >= 0.5:
+            # D2 = D1 renamed with two symbols EXCHANGED (isomorphic only if D1 is symmetric in them), transitions listed in another order
+            a0, b0 = rng.sample(sorted(Sig), 2)
+            sw = {a0: b0, b0: a0}
+            d2 = rename(d1, lambda q: 'r_' + q)
+            d2['delta'] = [[p, sw.get(a, a), t] for p, a, t in d2['delta']]
+        if rng.random() < 0.4:          # the transition tables are filled in different orders (row order, symbol order within a row)
+            d2['delta'] = sorted(d2['delta'], key=lambda e: (rng.random(), e[1]))[::-1]
         if not thorough or ctx.mine(i):
             yield {'D1': d1, 'D2': d2, 'sched': [rng.randint(0, 6) for _ in range(8)]}
+    # 12-13 numbered states: all pairs of rows for one state (the last one in breadth-first order, so that the numbering of the
+    # others does not depend on its row); D1 = base with row r1, D2 = renamed base with row r2: isomorphic iff r1 = r2 (checked by the reference)
+    for i in range(1 if not thorough else 6):
+        base = gen.numbered_dfa(rng, rng.choice([12, 13]), ['a', 'b'])
+        yield {'rows': True, 'base': base, 'n1': 200, 'seed': rng.randrange(1 << 30)}
+
+
+def row_pairs(c):
+    import random
+    r = random.Random(c['seed'])
+    base = c['base']
+    D = enc.build_dfa(base)
+    order, todo = [D.q0], [D.q0]
+    while todo:                      # breadth first, symbols in sorted order
+        q = todo.pop(0)
+        for a in sorted(D.Sigma):
+            t = D.delta[q, a]
+            if t not in order:
+                order.append(t)
+                todo.append(t)
+    k = order[-1]
+    Q = base['Q']
+    rows = [(x, y) for x in Q for y in Q]
+    first = r.sample(rows, min(c['n1'], len(rows)))
+
+    def variant(row, f):
+        d = {'Q': list(Q), 'Sigma': ['a', 'b'], 'q0': base['q0'], 'F': list(base['F']),
+             'delta': [[p, a, (row[0] if a == 'a' else row[1]) if p == k else t] for p, a, t in base['delta']]}
+        return rename(d, f)
+    for r1 in first:
+        d1 = variant(r1, lambda q: q)
+        for r2 in rows:
+            yield r1, r2, d1, variant(r2, lambda q: 'z' + q[1:])
 
 
 def lean_requests(c):
+    if c.get('rows'):
+        return []
     s = c.get('sched', [])
     return [{'op': 'dfa_isomorphic1', 'D1': c['D1'], 'D2': c['D2'], 'sched': s},
             {'op': 'dfa_isomorphic1', 'D1': c['D2'], 'D2': c['D1'], 'sched': s},
@@ -100,6 +143,21 @@ def lean_requests(c):
 
 
 def judge(ctx, c, answers):
+    if c.get('rows'):
+        n = 0
+        for r1, r2, d1, d2 in row_pairs(c):
+            D1, D2 = enc.build_dfa(d1), enc.build_dfa(d2)
+            exp = oracles.iso_ref(D1, D2)
+            n += 1
+            for name, f, A, B in (('dfa_isomorphic1', DA.dfa_isomorphic1, D1, D2), ('dfa_isomorphic', DA.dfa_isomorphic, D1, D2),
+                                  ('dfa_isomorphic(swapped)', DA.dfa_isomorphic, D2, D1)):
+                got = call(f, A, B, limit=5)
+                if got != {'ok': exp}:
+                    ctx.violation(name, {'case': {'D1': d1, 'D2': d2}, 'impl': got, 'expected': exp})
+                    return
+        ctx.count('row-pairs', n)
+        ctx.case({'rows': True, 'base': c['base']}, True)
+        return
     D1, D2 = enc.build_dfa(c['D1']), enc.build_dfa(c['D2'])
     b = (enc.canon_dfa(D1), enc.canon_dfa(D2))
     exp = oracles.iso_ref(D1, D2)
